@@ -115,7 +115,7 @@ gproof! { fn c11_offset_bits_and_borrow() {
     core::mem::forget(o);
 } }
 
-// @h props=C08 fuc=OffsetArc::make_mut,Arc::make_mut
+// @h props=C08,C03 fuc=OffsetArc::make_mut,Arc::make_mut
 gproof! { fn c08_offset_make_mut__tr8() {
     let n = any_count();
     let a = mk(Tr8::new(), n);
